@@ -753,7 +753,7 @@ pub fn c29_file(seed: u64, id: usize) -> tgen::GenFile {
         blocks.push((0x3000, 3));
     }
     let crlf = r.bool();
-    tgen::gen_file(&mut r, &tgen::FileOpts { id, blocks, shared: vec![], exotic: false, crlf, ext_place: 0, max_blkw: 6, pin_first: false, huge: None, pad_comment: 0, plain_head: false })
+    tgen::gen_file(&mut r, &tgen::FileOpts { id, blocks, shared: vec![], exotic: false, crlf, ext_place: 0, max_blkw: 6, pin_first: false, huge: None, pad_comment: 0, plain_head: false, abut: false })
 }
 
 impl C29 {
